@@ -48,7 +48,7 @@ func c15Chain(c *Ctx) {
 		})
 		atoms := []string{}
 		if cond != nil {
-			for _, a := range core.Atoms(cond, false) {
+			for _, a := range core.AtomsRaw(cond, false) {
 				atoms = append(atoms, core.ExprStr(a.Cond))
 			}
 		}
@@ -316,7 +316,7 @@ func c15Excluded(c *Ctx) {
 			guarded := false
 			for _, gd := range g.Guards(p) {
 				be, isB := gd.Cond.(*ast.BinaryExpr)
-				if !isB || be.Op != token.EQL || gd.Polarity {
+				if !isB || !((be.Op == token.EQL && !gd.Polarity) || (be.Op == token.NEQ && gd.Polarity)) {
 					continue
 				}
 				for _, side := range []ast.Expr{be.X, be.Y} {
